@@ -1,6 +1,7 @@
 (* Proofs about the exception-trace model (C20): line numbering and the snippet window; the highlighter shows the
    rows of the source in their places and every row made of single-line tokens verbatim (up to trailing white
-   space); compact keeps frames; the stack trace lists kept frames only. *)
+   space); compact keeps frames; the stack trace lists kept frames only; the lines of a report always exist
+   (render_lines is total: a source that cannot be read or tokenized costs the snippet, not the report). *)
 From Coq Require Import Lia.
 From Clikit Require Import Base.Prelude Base.Res Model.Conv Model.Markup Model.OutputM Model.Trace Proofs.OutputLemmas.
 
@@ -575,3 +576,99 @@ Proof.
 Qed.
 Lemma render_simple_shape c ind x : render_lines c true ind x = Ok [(ind, s_error_open ++ literal (x_msg x) st_error ++ s_error_close)].
 Proof. reflexivity. Qed.
+
+(* ------------------------------------------------------------------ the lines of a report always exist *)
+(* Since fix caca46b the renderer catches whatever reading / tokenizing the source raises: no snippet lines for such a
+   file, the frame's own line shown plain.  So none of the res-valued functions of the renderer is ever Err. *)
+Definition tok_ok (t : tokres) : Prop := exists toks, t = TokOk toks.
+Lemma snippet_of_total c t line before after : exists ls, snippet_of c t line before after = Ok ls.
+Proof. unfold snippet_of. destruct t; eexists; reflexivity. Qed.
+Lemma snippet_of_tokens c toks line before after :
+  snippet_of c (TokOk toks) line before after = Ok (code_snippet (ui_of (t_utf8 c)) toks line before after).
+Proof. reflexivity. Qed.
+(* a source that cannot be read or tokenized: no snippet lines *)
+Lemma snippet_of_unreadable c t line before after : ~ tok_ok t -> snippet_of c t line before after = Ok [].
+Proof. intros H. unfold snippet_of. destruct t as [toks| |]; [|reflexivity|reflexivity]. exfalso. apply H. exists toks. reflexivity. Qed.
+
+(* the text under a listed frame below debug verbosity: the first highlighted line of the frame's own line, or - when
+   tokenize raised on it, or no line came out - the line as it is *)
+Definition plain_code (f : frame) : str := styled HDefault (strip (f_line f)).
+Definition frame_text (f : frame) : str :=
+  match f_linetoks f with
+  | TokOk toks => match split_to_lines toks with l :: _ => l | [] => plain_code f end
+  | _ => plain_code f
+  end.
+Lemma frame_code_verbose c ind w f : t_debug c = false ->
+  frame_code c ind w f = Ok (render_line ind (rjust [32%N] w ++ [32; 32]%N ++ frame_text f) false 0).
+Proof. intros H. unfold frame_code, frame_text, plain_code. rewrite H. destruct (f_linetoks f); reflexivity. Qed.
+Lemma frame_text_fallback f : ~ tok_ok (f_linetoks f) -> frame_text f = plain_code f.
+Proof. intros H. unfold frame_text. destruct (f_linetoks f) as [toks| |]; [|reflexivity|reflexivity]. exfalso. apply H. exists toks. reflexivity. Qed.
+(* at debug verbosity: the snippet lines (none for an unreadable source) *)
+Lemma frame_code_debug c ind w f : t_debug c = true ->
+  exists sn, snippet_of c (f_content f) (f_lineno f) 2 2 = Ok sn /\
+    frame_code c ind w f = Ok (flat_map (fun l => render_line ind (rjust [32%N] w ++ l) false 1) sn).
+Proof.
+  intros H. unfold frame_code. rewrite H. destruct (snippet_of_total c (f_content f) (f_lineno f) 2 2) as (sn & E).
+  exists sn. split; [exact E|]. rewrite E. reflexivity.
+Qed.
+Lemma frame_code_debug_unreadable c ind w f : t_debug c = true -> ~ tok_ok (f_content f) -> frame_code c ind w f = Ok [].
+Proof. intros H Hn. unfold frame_code. rewrite H, (snippet_of_unreadable c _ _ 2 2 Hn). reflexivity. Qed.
+Lemma frame_code_total c ind w f : exists ls, frame_code c ind w f = Ok ls.
+Proof.
+  destruct (t_debug c) eqn:E.
+  - destruct (frame_code_debug c ind w f E) as (sn & _ & H). eexists. exact H.
+  - eexists. apply frame_code_verbose, E.
+Qed.
+Lemma frames_lines_total c ind w : forall fs i, exists r, frames_lines c ind w fs i = Ok r.
+Proof.
+  induction fs as [|f fs IH]; intros i; cbn [frames_lines]; [eexists; reflexivity|].
+  destruct (frame_code_total c ind w f) as (code & ->). destruct (IH (i - 1)%Z) as (rest & ->). cbn [bind]. eexists. reflexivity.
+Qed.
+Lemma colls_lines_total c ind w : forall cs i, exists r, colls_lines c ind w cs i = Ok r.
+Proof.
+  induction cs as [|cl cs IH]; intros i; cbn [colls_lines]; [eexists; reflexivity|].
+  match goal with |- exists r, bind (frames_lines c ind w (c_frames cl) ?j) _ = _ => destruct (frames_lines_total c ind w (c_frames cl) j) as (fl & ->) end.
+  cbn [bind]. destruct (IH (snd fl)) as (rest & ->). cbn [bind]. eexists. reflexivity.
+Qed.
+Lemma render_trace_total c ind fs : exists ls, render_trace c ind fs = Ok ls.
+Proof.
+  unfold render_trace. destruct (t_verbose c && negb (zlen (kept_frames c fs) - 1 =? 0)%Z); [|eexists; reflexivity].
+  match goal with |- exists ls, bind (colls_lines c ind ?w ?cs ?i) _ = _ => destruct (colls_lines_total c ind w cs i) as (l & ->) end.
+  cbn [bind]. eexists. reflexivity.
+Qed.
+Lemma render_snippet_total c ind f : exists ls, render_snippet c ind f = Ok ls.
+Proof.
+  unfold render_snippet. destruct (snippet_of_total c (f_content f) (f_lineno f) 4 4) as (sn & ->). cbn [bind]. eexists. reflexivity.
+Qed.
+(* an unreadable source: the location line alone *)
+Lemma render_snippet_unreadable c ind f : ~ tok_ok (f_content f) ->
+  render_snippet c ind f = Ok (render_line ind (s_at ++ location c st_green f) true 0).
+Proof. intros H. unfold render_snippet. rewrite (snippet_of_unreadable c _ _ 4 4 H). cbn [bind flat_map]. now rewrite app_nil_r. Qed.
+Lemma render_exception_total c ind x : exists ls, render_exception c ind x = Ok ls.
+Proof.
+  unfold render_exception. destruct (x_frames x) as [|f0 fs]; [eexists; reflexivity|].
+  destruct (render_trace_total c ind (f0 :: fs)) as (tr & ->). cbn [bind].
+  match goal with |- exists ls, bind (render_snippet c ind ?f) _ = _ => destruct (render_snippet_total c ind f) as (sn & ->) end.
+  cbn [bind]. eexists. reflexivity.
+Qed.
+(* ExceptionTrace.render always has its write_line calls: for every configuration, report mode, indentation and
+   exception case - whatever tokenize did on the sources *)
+Theorem render_lines_total c simple ind x : exists ls, render_lines c simple ind x = Ok ls.
+Proof. unfold render_lines. destruct simple; [eexists; reflexivity|apply render_exception_total]. Qed.
+
+(* hence the conditional statements above hold of the lines that exist *)
+Lemma render_trace_lists_total c ind fs :
+  t_verbose c = true -> (zlen (kept_frames c fs) - 1 <> 0)%Z ->
+  exists ls, render_trace c ind fs = Ok ls /\ forall f, In f (trace_frames c fs) -> exists k w, In (loc_line c ind w f k) ls.
+Proof.
+  intros Hv Hrem. destruct (render_trace_total c ind fs) as (ls & H). exists ls. split; [exact H|].
+  apply (render_trace_lists c ind fs ls Hv Hrem H).
+Qed.
+Lemma render_exception_shape_total c ind x :
+  x_frames x <> [] ->
+  exists tr sn, render_trace c ind (x_frames x) = Ok tr /\
+    render_exception c ind x = Ok (tr ++ [(ind, []); (ind, name_line x); (ind, []); (ind, msg_line x)] ++ sn).
+Proof.
+  intros Hne. destruct (render_exception_total c ind x) as (ls & H).
+  destruct (render_exception_shape c ind x ls Hne H) as (tr & sn & HT & ->). exists tr, sn. split; [exact HT|exact H].
+Qed.
